@@ -175,9 +175,20 @@ def sany(module, spec_dir=SPEC):
     return ok, p.stdout
 
 
+def _nonull(o):
+    """the Json module cannot deserialize null: write the string "None" instead"""
+    if o is None:
+        return "None"
+    if isinstance(o, dict):
+        return {k: _nonull(v) for k, v in o.items()}
+    if isinstance(o, (list, tuple)):
+        return [_nonull(v) for v in o]
+    return o
+
+
 def write_json(path, obj):
     with open(path, "w") as f:
-        json.dump(obj, f, separators=(",", ":"))
+        json.dump(_nonull(obj), f, separators=(",", ":"))
 
 
 def validate_traces(module, cfg, traces, *, env_name="TRACE_FILE", workers=1, timeout=900, extra_env=None, batch=4000):
